@@ -17,7 +17,7 @@ Q2 = 100.0
 
 def build_cards(pt, ckm2):
     s2w = float(common.frac(pt["s2w"]))
-    r = common.frac(pt["r"])
+    r = common.frac(pt["r"]) / 2 ** pt.get("rexp", 0)
     mz = math.inf if r == 0 else math.sqrt(Q2 * float((1 - r) / r))
     mc, mb, mt = MASSES[pt["nf"]]
     ckm = [math.sqrt(float(common.frac(e))) for row in ckm2 for e in row]
@@ -52,12 +52,12 @@ def execute(ob):
     row, raw, off = [], [], 0.0
     for p, e in zip(PIDSEQ, ob["expect"]):
         v = val[pids.index(p)]
-        w = float(v[j0]) / x
+        w = float(v[j0]) / x * 4.0 ** pt.get("rexp", 0)    # (exact in binary floating point)
         raw.append(repr(w))
         row.append(common.snap(w, common.frac(e), rel=1e-12, abs_=1e-14))
         for j in range(len(v)):
             if j != j0:
-                off = max(off, abs(float(v[j])))
+                off = max(off, abs(float(v[j])) * 4.0 ** pt.get("rexp", 0))
     # photon row must be empty as well
     off = max(off, float(abs(val[pids.index(22)]).max()))
     line["row"], line["raw"], line["offnode_milli"] = row, raw, common.milli(off, 1e-13)
